@@ -198,7 +198,7 @@ def assumptions(pid):
 
 # ---------------------------------------------------------------- stages 4/5
 
-RES_ENTRY = re.compile(r"\((\d+)(?:%nat)?\s*,\s*\[([^\]]*)\]\)")
+RES_ENTRY = re.compile(r"\(\s*(\d+)(?:%nat)?\s*,\s*\[([^\]]*)\]\s*\)")
 
 
 def eval_shard(path):
@@ -213,6 +213,9 @@ def eval_shard(path):
     for e in RES_ENTRY.finditer(m.group(1)):
         codes = [int(re.sub(r"%N", "", x)) for x in e.group(2).split(";") if x.strip()]
         fails[int(e.group(1))] = codes
+    nf = re.search(r"NFAIL\s*=\s*(\d+)", out)
+    if nf and int(nf.group(1)) != len(fails):
+        return None, "result parser lost entries: NFAIL=%s parsed=%d\n%s" % (nf.group(1), len(fails), out[-2000:])
     return fails, out
 
 
